@@ -72,6 +72,12 @@ func (a Amount) ToCoinWithBase(list *balance.CurrencySet) balance.Coin {
 		return balance.Coin{}
 	}
 
+	// a value beyond int64 would be truncated by the conversion below while callers
+	// keep using the full value: treat it as an invalid coin
+	if !a.Value.BigInt().IsInt64() {
+		return balance.Coin{}
+	}
+
 	// parse float string
 	return currency.NewCoinFromInt(a.Value.BigInt().Int64())
 }
